@@ -1,5 +1,6 @@
 import EupsModel.Lemmas.SetupFrame
 import EupsModel.Lemmas.SetupKeep
+import EupsModel.Lemmas.SetupInverse
 /-! Line-by-line reasoning about one table (round 3): an environment invariant goes through `acts` when every
 non-dependency action keeps it and every dependency *line* of the list keeps it (`acts_lines`) — no closure condition
 over the other declared versions of the product, unlike `acts_subj`.  Instances:
@@ -285,5 +286,156 @@ theorem install_keep_top (cfg : Cfg) (fuel : Nat) (noRec : Bool) (vro : List Vro
       rw [hsp] at this; cases this
     · rename_i s1 hr1
       exact absurd hr1 (setup_unfail cfg fuel 0 noRec vro d.name none none s s1).1
+
+/-! ### path variables: what is not owned by a subject is never touched (depth-indexed form of `partBy_subjInv`) -/
+
+theorem partBy_subjInvAt (cfg : Cfg) (S : Nat → Name → Prop) (hown : OwnTables cfg.db) (f : Elem → Bool)
+    (hf : ∀ k p rel, S k p.1 → f (.own p rel) = false) (e0 : Env) :
+    SubjInv cfg S (fun e => ∀ var, partBy f e var = partBy f e0 var) := by
+  refine ⟨?_, fun _ _ _ _ _ _ hp => hp, fun _ _ _ _ _ hp => hp⟩
+  intro fwd k d a s hc ha hS hp var
+  obtain ⟨hd, g, hg⟩ := canon_table_mem cfg.db d hc cfg.exact a ha
+  rw [partBy_apply f fwd d.prod a s ?_ var]
+  · exact hp var
+  · intro v vals app he val hval
+    obtain ⟨rel, rfl⟩ := (hown d hd g a hg).1 v vals app he val hval
+    exact hf k d.prod rel hS
+
+/-! ### aliases: an invariant of (`Eups.aliases`, marks for `unset -f`) kept by everything done for a subject -/
+
+/-- `addAlias(key, …)` occurs in the table of a declared version of a name that may be a subject at some depth -/
+def AliasOf (db : Db) (S : Nat → Name → Prop) (key : Str) : Prop :=
+  ∃ d ∈ db.decls, (∃ k, S k d.name) ∧ ∃ g val, (g, Act.alias key val) ∈ d.table
+
+/-- the key is neither defined nor marked for removal -/
+def AliasFree (key : Str) (s : St) : Prop := aget s.aliases key = none ∧ key ∉ s.unaliased
+
+def AliasSpec (cfg : Cfg) (S : Nat → Name → Prop) (key : Str) (rec : Rec) : Prop :=
+  ∀ fwd k noRec vro n ver vexpr s s', S k n → AlreadyOK cfg.db s.already → AliasFree key s →
+    rec fwd k noRec vro n ver vexpr s = .ok s' → AliasFree key s'
+
+theorem apply_aliasFree (key : Str) (fwd : Bool) (p : Prod) (a : Act) (s : St) (ha : ∀ val, a ≠ .alias key val)
+    (h : AliasFree key s) : AliasFree key (a.apply fwd p s) := by
+  cases a with
+  | prepend var vals app => exact h
+  | set var val => exact h
+  | dep n o j v x t kl => exact h
+  | alias k2 val =>
+    have hne : key ≠ k2 := fun e => ha val (by rw [e])
+    cases fwd
+    · refine ⟨?_, ?_⟩
+      · show aget (aunset s.aliases k2) key = none
+        rw [aget_aunset_other _ _ _ hne]; exact h.1
+      · show key ∉ k2 :: s.unaliased.filter (· ≠ k2)
+        intro hm
+        rcases List.mem_cons.1 hm with hm | hm
+        · exact hne hm
+        · exact h.2 (List.mem_filter.1 hm).1
+    · refine ⟨?_, h.2⟩
+      show aget (aset s.aliases k2 val) key = none
+      rw [aget_aset_other _ _ _ _ hne]; exact h.1
+
+theorem acts_aliasFree (cfg : Cfg) (S : Nat → Name → Prop) (key : Str) (hcl : ClosedAt cfg S)
+    (hkey : ¬ AliasOf cfg.db S key) (rec : Rec) (hal : AlOK cfg rec) (hrec : AliasSpec cfg S key rec) (fwd : Bool)
+    (k : Nat) (noRec : Bool) (vro : List VroEnt) (d : Decl) (hc : Canon cfg.db d) (hS : S k d.name) (l : List Act)
+    (hl : ∀ a ∈ l, a ∈ d.actions cfg.exact) :
+    ∀ s s', AlreadyOK cfg.db s.already → AliasFree key s → acts rec cfg fwd k noRec vro d l s = .ok s' →
+      AliasFree key s' := by
+  induction l with
+  | nil => intro s s' _ hp h; simp [acts] at h; subst h; exact hp
+  | cons a rest ih =>
+    have hl' : ∀ a ∈ rest, a ∈ d.actions cfg.exact := fun a hm => hl a (List.mem_cons_of_mem _ hm)
+    intro s s' ha hp h
+    by_cases hdep : ∃ n o j v x t kl, a = .dep n o j v x t kl
+    · obtain ⟨n, o, j, v, x, t, kl, rfl⟩ := hdep
+      simp only [acts] at h
+      split at h
+      · exact ih hl' s s' ha hp h
+      · rename_i hgo
+        have hmd : cfg.maxDepth ≠ some k := by
+          intro e; apply hgo; simp [e]
+        obtain ⟨g, hg⟩ := mem_actions d cfg.exact _ (hl _ (List.mem_cons_self))
+        have hSn : S (k + 1) n := hcl d (lookup_some cfg.db d.prod d hc).1 k hS hmd g n o j v x t kl hg
+        split at h
+        · rename_i s1 hr
+          exact ih hl' s1 s' (hal _ _ _ _ _ _ _ _ _ ha (by rw [hr]; rfl)) (hrec _ _ _ _ _ _ _ _ _ hSn ha hp hr) h
+        · cases h
+        · rename_i s1 hr
+          have h1 : AlreadyOK cfg.db s1.already := hal _ _ _ _ _ _ _ _ _ ha (by rw [hr]; rfl)
+          split at h
+          · cases h
+          · exact ih hl' ⟨s.env, s.aliases, s.unaliased, s1.already, s1.cache⟩ s' h1 hp h
+        · rename_i s1 hr
+          have h1 : AlreadyOK cfg.db s1.already := hal _ _ _ _ _ _ _ _ _ ha (by rw [hr]; rfl)
+          split at h
+          · cases h
+          · exact ih hl' ⟨s.env, s.aliases, s.unaliased, s1.already, s1.cache⟩ s' h1 hp h
+    · have hnd : ∀ n o j v x t kl, a ≠ .dep n o j v x t kl := fun n o j v x t kl e => hdep ⟨n, o, j, v, x, t, kl, e⟩
+      rw [acts_cons_nondep rec cfg fwd k noRec vro d a rest s hnd] at h
+      refine ih hl' _ s' (by simpa using ha) (apply_aliasFree key fwd d.prod a s ?_ hp) h
+      intro val e
+      obtain ⟨g, hg⟩ := mem_actions d cfg.exact _ (hl _ (List.mem_cons_self))
+      exact hkey ⟨d, (lookup_some cfg.db d.prod d hc).1, ⟨k, hS⟩, g, val, e ▸ hg⟩
+
+theorem setup_aliasFree (cfg : Cfg) (S : Nat → Name → Prop) (key : Str) (hcl : ClosedAt cfg S)
+    (hkey : ¬ AliasOf cfg.db S key) : ∀ fuel, AliasSpec cfg S key (setup cfg fuel) := by
+  intro fuel
+  induction fuel with
+  | zero => intro fwd k noRec vro n ver vexpr s s' _ _ _ h; simp [setup_zero] at h
+  | succ f ih =>
+    intro fwd k noRec vro n ver vexpr s s' hS ha hp h
+    have hal := setup_alOK cfg f
+    cases fwd with
+    | true =>
+      rw [setup_succ_true] at h
+      cases hres : resolve cfg.db cfg.path cfg.keep s.already n ver vexpr k vro.length vro with
+      | none => rw [hres] at h; cases h
+      | error => rw [hres] at h; cases h
+      | found d reason =>
+        rw [hres] at h
+        obtain ⟨hc, hname⟩ := resolve_spec cfg.db cfg.path cfg.keep s.already ha n ver vexpr k _ _ _ _ hres
+        try simp only at h
+        obtain ⟨hc, hname⟩ := pickDecl_spec cfg.db s.cache d _ hc hname
+        revert h hc hname; generalize pickDecl cfg.db s.cache d = d; intro h hc hname
+        have hSd : S k d.name := by rw [hname]; exact hS
+        have ha0 := register_already cfg k d reason (s.afterResolve cfg k vro n ver vexpr) ha hc
+        have hp0 : AliasFree key (register cfg k d reason (s.afterResolve cfg k vro n ver vexpr)) := by
+          unfold register St.afterResolve; split <;> exact hp
+        revert h ha0 hp0
+        generalize register cfg k d reason (s.afterResolve cfg k vro n ver vexpr) = s0
+        intro h ha0 hp0
+        have tail : ∀ s1 : St, AlreadyOK cfg.db s1.already → AliasFree key s1 →
+            acts (setup cfg f) cfg true k noRec vro d (d.actions cfg.exact) (record d reason s1) = .ok s' →
+            AliasFree key s' := by
+          intro s1 h1 hp1 hacts
+          exact acts_aliasFree cfg S key hcl hkey (setup cfg f) hal ih true k noRec vro d hc hSd _ (fun _ hm => hm)
+            (record d reason s1) s' (alreadyOK_aset cfg.db _ h1 d reason hc) hp1 hacts
+        unfold install at h
+        split at h
+        · exact tail s0 ha0 hp0 h
+        · split at h
+          · simp at h; subst h; exact hp0
+          · split at h
+            · cases h
+            · rename_i s1 hr1
+              exact tail s1 (hal _ _ _ _ _ _ _ _ _ ha0 (by rw [hr1]; rfl)) (ih _ _ _ _ _ _ _ _ _ hSd ha0 hp0 hr1) h
+            · rename_i s1 hr1
+              have := setup_notFound_unchanged cfg f false k noRec vro d.name none none s0 s1 hr1
+              subst this
+              exact tail s1 ha0 hp0 h
+            · rename_i s1 hr1
+              exact absurd hr1 (setup_unfail cfg f k noRec vro d.name none none s0 s1).1
+    | false =>
+      rw [setup_succ_false] at h
+      cases hsp : setupProd cfg.db s.env n with
+      | none => rw [hsp] at h; cases h
+      | some d =>
+        rw [hsp] at h
+        obtain ⟨hc, hname, _⟩ := setupProd_some cfg.db s.env n d hsp
+        have hS' : S k d.name := by rw [hname]; exact hS
+        exact acts_aliasFree cfg S key hcl hkey (setup cfg f) hal ih false k noRec vro d hc hS' _
+          (fun _ hm => hm)
+          ⟨{ s.env with dirs := aunset s.env.dirs d.name, recs := aunset s.env.recs d.name }, s.aliases, s.unaliased, s.already, s.cache⟩
+          s' ha hp h
 
 end EupsModel.Setup
